@@ -37,7 +37,9 @@ func (f *Float) SubtractFromFloat(num uint) error {
 	// Convert the float to a string
 	strValue := strconv.FormatFloat(f.Value, 'f', -1, 64)
 
-	if !strings.Contains(strValue, ".") {
+	// the decimal part is only preserved for values that
+	// stay positive, other values are subtracted as they are
+	if f.Value < float64(num) || !strings.Contains(strValue, ".") {
 		f.Value -= float64(num)
 		return nil
 	}
